@@ -874,6 +874,89 @@ pub fn execute(plan: &HistPlan, preds: &[Predictor], ex: &mut Exec) -> (Option<V
                         Some((Focus::C08, format!("panic@{acc}-after-{}(fresh-too)", op.kind()), last_panic()));
                 }
             }
+            // ---- absolute oracles: the shadow repeats every in-segment operation, so a defect
+            // that only needs the operations since the last update would show on both sides.
+            // predict and fill_tags are functions of (text[, boundaries], predictor); reset_tags
+            // has a stated postcondition.
+            if step_violation.is_none() && outcome == 1 {
+                match op {
+                    Op::Predict(p) => {
+                        let p = *p % preds.len();
+                        let text = c.reused.as_raw_text().to_string();
+                        let fresh = guarded(|| {
+                            let mut f = Sentence::from_raw(text).ok()?;
+                            preds[p].predict(&mut f);
+                            Some((f.boundary_scores().to_vec(), observe(&f, false).bounds))
+                        });
+                        if let Some(Some((fs, fb))) = fresh {
+                            if ro.scores.value() != Some(&fs) {
+                                step_violation = Some((
+                                    Focus::C08,
+                                    "history-dependence@predict:boundary_scores".into(),
+                                    format!("reused={:?} from_raw+predict={:?}", ro.scores, fs),
+                                ));
+                            } else if ro.bounds != fb {
+                                step_violation = Some((
+                                    Focus::C08,
+                                    "history-dependence@predict:boundaries".into(),
+                                    format!("reused={:?} from_raw+predict={:?}", ro.bounds, fb),
+                                ));
+                            }
+                            probe!("predict-compared-with-from_raw");
+                        }
+                    }
+                    Op::FillTags if do_fill => {
+                        if let Some(p) = c.linked {
+                            let ps = &plan.preds[p];
+                            if ps.predict_tags && plan.models[ps.model].n_tags() > 0 {
+                                let text = c.reused.as_raw_text().to_string();
+                                let bounds: Vec<CharacterBoundary> = c.reused.boundaries().to_vec();
+                                let fresh = guarded(|| {
+                                    let mut f = Sentence::from_raw(text).ok()?;
+                                    preds[p].predict(&mut f);
+                                    f.boundaries_mut().copy_from_slice(&bounds);
+                                    f.fill_tags();
+                                    Some(observe(&f, with_cands))
+                                });
+                                if let Some(Some(fo)) = fresh {
+                                    let field = if ro.n_tags != fo.n_tags {
+                                        Some("n_tags")
+                                    } else if ro.tags != fo.tags {
+                                        Some("tags")
+                                    } else if ro.tok_tags != fo.tok_tags {
+                                        Some("token_tags")
+                                    } else if ro.cands != fo.cands {
+                                        Some("tag_candidates")
+                                    } else {
+                                        None
+                                    };
+                                    if let Some(field) = field {
+                                        step_violation = Some((
+                                            Focus::C08,
+                                            format!("history-dependence@fill_tags:{field}"),
+                                            format!("reused={:?} from_raw+predict+boundaries+fill_tags={:?}", ro, fo),
+                                        ));
+                                    }
+                                    probe!("fill_tags-compared-with-from_raw");
+                                }
+                            }
+                        }
+                    }
+                    Op::ResetTags(k) => {
+                        let chars = ro.raw.value().map(|r| r.chars().count()).unwrap_or(0);
+                        let ok = ro.n_tags.value() == Some(k)
+                            && ro.tags.value().map(|t| t.len() == chars * k && t.iter().all(|x| x.is_none())).unwrap_or(false);
+                        if !ok {
+                            step_violation = Some((
+                                Focus::C05,
+                                "postcondition@reset_tags".into(),
+                                format!("after reset_tags({k}): n_tags={:?} tags={:?}", ro.n_tags, ro.tags),
+                            ));
+                        }
+                    }
+                    _ => {}
+                }
+            }
             c.prev_tagged = ro.n_tags.value().copied().unwrap_or(0) > 0;
             ro.digest(&mut h);
         }
